@@ -6,5 +6,5 @@ export CARGO_NET_OFFLINE=true
 # 1. specs parse (the PlusCal translation is committed inside Callbag.tla)
 ( cd spec && for m in Callbag CallbagProps TraceProps; do tla-sany $m.tla >/dev/null 2>&1 || { echo "SANY failed on $m"; exit 2; }; done )
 # 2. harness builds against /repo's current tree
-( cd harness && CARGO_TARGET_DIR=target cargo build --offline --quiet && CARGO_TARGET_DIR=target-tr cargo build --offline --quiet --features tracing )
+( cd harness && CARGO_TARGET_DIR=target cargo build --offline --quiet && CARGO_TARGET_DIR=target-tr cargo build --offline --quiet --features tracing && RUSTFLAGS="--cfg callbag_verif --check-cfg cfg(callbag_verif)" CARGO_TARGET_DIR=target-vf cargo build --offline --quiet )
 echo "setup ok"
